@@ -12,6 +12,7 @@ package kv
 import (
 	"context"
 	"io"
+	"sync"
 	"time"
 
 	"github.com/synnaxlabs/alamos"
@@ -199,6 +200,9 @@ func Open(ctx context.Context, cfgs ...Config) (db *DB, err error) {
 	db.config.L.Debug("opening cluster KV", db.config.Report().ZapFields()...)
 
 	st := newStore()
+	// The gossip ingress is live while runRecovery (below) is still running: both decide
+	// with supersedes() on the stored digests, so their transactions are serialised.
+	ingressMu := &sync.Mutex{}
 
 	pipe := plumber.New()
 	plumber.SetSource[TxRequest](pipe, executorAddr, &db.source)
@@ -213,7 +217,7 @@ func Open(ctx context.Context, cfgs ...Config) (db *DB, err error) {
 	plumber.SetSegment[TxRequest](
 		pipe,
 		filterPersistAddr,
-		newFilterPersist(cfg, persistDeltaAddr, feedbackSenderAddr),
+		newFilterPersist(cfg, persistDeltaAddr, feedbackSenderAddr, ingressMu),
 	)
 	plumber.SetSegment[TxRequest](pipe, versionAssignerAddr, va)
 	plumber.SetSink[TxRequest](pipe, leaseSenderAddr, newLeaseSender(cfg))
@@ -332,7 +336,7 @@ func Open(ctx context.Context, cfgs ...Config) (db *DB, err error) {
 		confluence.RecoverWithoutErrOnPanic(),
 		confluence.WithRetryOnPanic(100),
 	)
-	return db, runRecovery(ctx, cfg)
+	return db, runRecovery(ctx, cfg, ingressMu)
 }
 
 func (d *DB) Close() error { return d.shutdown.Close() }
